@@ -91,6 +91,9 @@ Fixpoint c09g_walk (sent_tpls : list (N * N)) (outs : list gout) (os : list gobs
       c09_send_ok sent_tpls s o && c09g_walk sent' ro rs f
   | ORefresh st _ _ :: ro, GORefresh ws _ :: rs =>
       c02_refresh_check st ws && c09g_walk sent_tpls ro rs f
+  | OReconn _ _ :: ro, GOReconn s :: rs =>
+      (* a new process: no template has been sent on it *)
+      String.eqb s "-" && c09g_walk [] ro rs f
   | _, _ => false
   end.
 
@@ -100,7 +103,7 @@ Definition C09_holds_on (c : gcase) (o : list gobs * fobs) : bool :=
 (* hypotheses: as above for every set sent (as SendSet saw it); no call panics; the histories
    of this property contain no refresh *)
 Definition c09_wf_outs (outs : list gout) (os : list gobs) : bool :=
-  forallb (fun o => match o with OSent _ s _ _ => case_set_ok s | ORefresh _ _ _ => false end) outs &&
+  forallb (fun o => match o with OSent _ s _ _ => case_set_ok s | ORefresh _ _ _ => false | OReconn _ _ => true end) outs &&
   forallb (fun o => match o with GOSend s => match so_res s with RPanic => false | _ => true end | _ => true end) os.
 Definition c09_wf (c : gcase) (os : list gobs) : bool := c09_wf_outs (gouts cur c) os.
 
